@@ -2006,12 +2006,16 @@ def h_merge_next(ctx, p):
         ok = z.entails_eq(f1, i, 1) and z.entails_eq(b1, b0) and z.entails_le(f0, i)
     ctx.req('ONCE', ok, nm + ':some',
             'the cursor of the part must stand right behind the yielded element (no element is yielded twice or lost)', p)
+    order = list(m0)
     for m in m0:
         if m == X:
             continue
         r1 = m1.get(m)
         same = r1 is not None and z.entails_eq(_part_cur(r1)[0], _part_cur(m0[m])[0]) \
             and z.entails_eq(_part_cur(r1)[1], _part_cur(m0[m])[1])
+        if same and not z.entails_le(_part_cur(m0[m])[1], _part_cur(m0[m])[0]):
+            # X yields while m, untouched, may still have elements: next() takes X's elements before m's
+            getattr(p.E, 'part_order', set()).add((order.index(X), order.index(m)))
         ctx.req('ONCE', same or exhausted(m), nm + ':some',
                 'while one part yields, every other part must keep its position (or be exhausted)', p)
     if q0[0] == 'filter':
@@ -2055,6 +2059,20 @@ def _ghost_bump(st, key, mid):
     st.ghost[key] = (slots.plus(st, t, 1), tuple(sorted(set(mids) | {mid})))
 
 
+def _cursor_now(E, st, mid):
+    """(front, back) of the slice cursor over container mid held anywhere in the state (None if none / several)"""
+    found = []
+    for fr in st.frames.values():
+        for v in fr.values():
+            found.extend(x for x in E.sliceits_in(v) if x[1] == mid)
+    for v in st.objs.values():
+        found.extend(x for x in E.sliceits_in(v) if x[1] == mid)
+    cs = {(x[2], x[3]) for x in found}
+    if len(cs) == 1:
+        return next(iter(cs))
+    return None
+
+
 def merge_iteration(mode):
     """per loop iteration of next / fold / count of a merged iterator: the part whose cursor advanced decides
     what must happen to the element (plain: always kept; filtered: kept iff the lookup says so)"""
@@ -2075,6 +2093,16 @@ def merge_iteration(mode):
             if mode == 'fold':
                 it_req(E, props, 'ORDER', not (len(advs[0]) > 3 and advs[0][3] == 'back'), nm + ':fold',
                        'fold must visit the elements in the order in which next() yields them (front to back)', it)
+                order = list(roles)
+                for m2 in roles:
+                    if m2 == mid:
+                        continue
+                    cur = _cursor_now(E, st, m2)
+                    if cur is not None and not st.zone.entails_le(cur[1], cur[0]) \
+                            and st.zone.entails_eq(cur[0], _part_cur(roles[m2])[0]):
+                        # an element of this part is folded while part m2 has not been started and may have
+                        # elements: fold takes this part's elements before m2's
+                        getattr(E, 'part_order', set()).add((order.index(mid), order.index(m2)))
             calls = [e for e in seg if e[0] == 'user' and (e[1].endswith('::call_mut') or e[1].endswith('::call_once')
                                                           or e[1].endswith('::call') or e[1] == 'call')]
             consumed = isinstance(key, tuple) and key and key[0] in ('fold', 'count')   # the std driver's own loop
@@ -3119,6 +3147,8 @@ def check_root(E, body, rr):
             fn(ctx, p)
         digest['classes'] = dict(ctx.classes)
         digest['paths'] = len(rets)
+        if getattr(E, 'part_order', None):
+            digest['part_order'] = sorted(E.part_order)
         for c in sorted(required_classes(key)):
             E.oblig('OUT', ctx.classes.get(c, 0) > 0, body.name + ':class-' + c,
                     'no path of class "%s" was produced for this root: its schema would pass vacuously' % c,
